@@ -31,6 +31,16 @@ class ChildError(Exception):
     """The forked child did not deliver a result (crash / timeout / garbage)."""
 
 
+def _die_with_parent():
+    """A child must never outlive its parent (an orphan would hold pipes open forever)."""
+    try:
+        import ctypes  # noqa: PLC0415
+
+        ctypes.CDLL("libc.so.6", use_errno=True).prctl(1, signal.SIGKILL)  # PR_SET_PDEATHSIG
+    except Exception:  # noqa: BLE001
+        pass
+
+
 def run_in_child(fn, arg, timeout: float = 60.0):
     """Run fn(arg) in a forked child; return its JSON-serialisable result.
 
@@ -44,14 +54,17 @@ def run_in_child(fn, arg, timeout: float = 60.0):
         code = 0
         try:
             os.close(r)
+            _die_with_parent()
             # the worker's stdout is the JSON channel to the driver: nothing a run prints
             # (Hypothesis reports, debug output of the code under test) may reach it
             dn = os.open(os.devnull, os.O_WRONLY)
             os.dup2(dn, 1)
             if not os.environ.get("VERIF_CHILD_STDERR"):
                 os.dup2(dn, 2)
+            # signal-based dump only: dump_traceback_later() uses a watchdog thread, and
+            # re-arming it in a forked grandchild dead-locks on the thread that no longer exists
             faulthandler.enable()
-            faulthandler.dump_traceback_later(max(1.0, timeout - 1.0), exit=False)
+            faulthandler.register(signal.SIGUSR1, all_threads=True, chain=False)
             try:
                 res = {"ok": fn(arg)}
             except BaseException as e:  # noqa: BLE001 - reported to the parent
@@ -87,6 +100,8 @@ def run_in_child(fn, arg, timeout: float = 60.0):
         os.close(r)
     if timed_out:
         try:
+            os.kill(pid, signal.SIGUSR1)  # traceback to the child's stderr (if kept)
+            time.sleep(0.2)
             os.kill(pid, signal.SIGKILL)
         except ProcessLookupError:
             pass
@@ -100,6 +115,93 @@ def run_in_child(fn, arg, timeout: float = 60.0):
         res = json.loads(data)
     except ValueError as e:
         raise ChildError(f"child wrote garbage: {e}") from e
+    if "harness_exception" in res:
+        raise ChildError(res["harness_exception"] + "\n" + res.get("traceback", ""))
+    return res["ok"]
+
+
+class Zygote:
+    """Client side of vpest/zygote_main.py (one zygote per worker / replay process)."""
+
+    def __init__(self, hashseed):
+        env = {
+            "PATH": "/usr/bin:/bin",
+            "PYTHONHASHSEED": str(hashseed),
+            "PYTHONDONTWRITEBYTECODE": "1",
+            "VERIF_PEST_SRC": common.PEST_SRC,
+            "LC_ALL": "C.UTF-8",
+        }
+        self.hashseed = str(hashseed)
+        zy = os.path.join(common.VERIF_DIR, "vpest", "zygote_main.py")
+        self.p = subprocess.Popen([common.PYTHON, "-B", zy], stdin=subprocess.PIPE, stdout=subprocess.PIPE, stderr=subprocess.DEVNULL, env=env, cwd="/")
+
+    def run(self, plan, timeout: float):
+        import struct  # noqa: PLC0415
+
+        payload = json.dumps(plan).encode()
+        try:
+            self.p.stdin.write(struct.pack("<II", len(payload), int(timeout * 1000)) + payload)
+            self.p.stdin.flush()
+            hdr = self._readn(5, timeout + 30)
+            st, n = struct.unpack("<BI", hdr)
+            data = self._readn(n, 60)
+        except (BrokenPipeError, OSError, ChildError) as e:
+            self.close()
+            raise ChildError(f"zygote failed: {e}") from e
+        if st != 0:
+            raise ChildError(data.decode(errors="replace"))
+        try:
+            res = json.loads(data)
+        except ValueError as e:
+            raise ChildError(f"child wrote garbage: {e}") from e
+        if "harness_exception" in res:
+            raise ChildError(res["harness_exception"] + "\n" + res.get("traceback", ""))
+        return res["ok"]
+
+    def _readn(self, n, timeout):
+        fd = self.p.stdout.fileno()
+        buf = b""
+        deadline = time.monotonic() + timeout
+        while len(buf) < n:
+            left = deadline - time.monotonic()
+            if left <= 0:
+                raise ChildError("zygote did not answer in time")
+            ready, _, _ = select.select([fd], [], [], min(left, 1.0))
+            if ready:
+                b = os.read(fd, n - len(buf))
+                if not b:
+                    raise ChildError("zygote closed its pipe")
+                buf += b
+        return buf
+
+    def close(self):
+        try:
+            self.p.kill()
+            self.p.wait(timeout=5)
+        except Exception:  # noqa: BLE001
+            pass
+
+
+def run_canonical(plan, timeout: float = 200.0):
+    """Execute a C15 plan in a fresh interpreter with fixed argv and environment."""
+    env = {
+        "PATH": "/usr/bin:/bin",
+        "PYTHONHASHSEED": str(plan.get("hashseed", 0)),
+        "PYTHONDONTWRITEBYTECODE": "1",
+        "VERIF_PEST_SRC": common.PEST_SRC,
+        "LC_ALL": "C.UTF-8",
+    }
+    child = os.path.join(common.VERIF_DIR, "vpest", "child_main.py")
+    try:
+        r = subprocess.run([common.PYTHON, "-B", child], input=json.dumps(plan).encode(), capture_output=True, env=env, timeout=timeout, cwd="/", check=False)
+    except subprocess.TimeoutExpired as e:
+        raise ChildError(f"canonical child timed out after {timeout}s") from e
+    if not r.stdout:
+        raise ChildError(f"canonical child died without result (status {r.returncode}): {r.stderr.decode(errors='replace')[-1500:]}")
+    try:
+        res = json.loads(r.stdout)
+    except ValueError as e:
+        raise ChildError(f"canonical child wrote garbage: {e}") from e
     if "harness_exception" in res:
         raise ChildError(res["harness_exception"] + "\n" + res.get("traceback", ""))
     return res["ok"]
